@@ -20,7 +20,9 @@ PL = 16384
 def hostile_alphabet(box):
     outside = os.path.join(box, "outside")
     return ["..", ".", "", outside, outside + "/x", "a/../../b", "../" * 3 + "up", "../../..",
-            "../" * 12 + "deep", "ok", "sub", "a/b", "/", "..//..", "./../x", "ok/..", "…"]
+            "../" * 12 + "deep", "ok", "sub", "a/b", "/", "..//..", "./../x", "ok/..", "…",
+            "../dest2", "../dest.bak", "../destX/y", "../../y/dest", "//" + box.lstrip("/"),
+            "..", "../dest"]
 
 
 def gen_meta(rng, box):
@@ -33,7 +35,7 @@ def gen_meta(rng, box):
         depth = rng.choice([0, 1, 2])
         comps = [rng.choice(alpha) for _ in range(depth)]
         last = rng.choice(["f%d.bin" % i, "f%d.bin" % i, "f%d.bin" % i, "..", ""])
-        data = bytes([65 + i]) * rng.choice([10, PL, PL + 7])
+        data = bytes([65 + i]) * rng.choice([0, 10, PL, PL + 7])
         files.append((tuple(comps + [last]), data))
     if single:
         name = rng.choice([name, "../escape.bin", os.path.join(box, "outside", "abs.bin"), "s.bin"])
@@ -131,7 +133,8 @@ def run(tier, seed, replay=None):
                 continue
             raise MachineryError(f"driver: {req[:40]} -> {out[:100]}")
         run.model_checked += 1
-        model = None if out.strip() == "none" else bytes.fromhex(out.strip()).decode("utf8")
+        tok = out.split()[0]
+        model = None if tok == "none" else bytes.fromhex(tok).decode("utf8")
         if model != got:
             run.fail("impl-vs-model", case, {"correspondence": "Impl.safeJoin", "model": model,
                                              "impl": got})
